@@ -127,6 +127,7 @@ def main():
             {"name": "executor", "path": "harness/snowmc/src/exec.rs", "serves_properties": sorted(CHECKS.keys()), "kind_free_text": "runs op sequences on real snow objects and on an abstract + crypto reference model in lock step"},
             {"name": "E2 seqmc", "path": "harness/snowmc/src/engine/seqmc.rs", "serves_properties": ["C05", "C06", "C07", "C09", "C11", "C15"], "kind_free_text": "stateright explicit-state BFS over API call sequences; every transition re-executes the history on fresh real snow objects and on the reference model in lock step; states merged on model + private-state fingerprint + cipher keys"},
             {"name": "E3 sched", "path": "harness/snowmc/src/props/c16.rs", "serves_properties": ["C16"], "kind_free_text": "shuttle::check_dfs controlled-scheduler exploration of threads sharing one StatelessTransportState, scheduling points at cipher-call seams"},
+            {"name": "c16x", "path": "harness-c16x", "serves_properties": ["C16"], "kind_free_text": "copy of /repo/src with std/core/alloc sync primitives mapped to shuttle's, rebuilt and explored with shuttle::check_dfs when snow contains any synchronisation primitive"},
             {"name": "refnoise", "path": "harness/refnoise", "serves_properties": sorted(CHECKS.keys()), "kind_free_text": "reference model of Noise rev 34 bound to cacophony vectors and KATs"},
         ],
         "checks": checks,
